@@ -1,6 +1,7 @@
 /* C12 driver.
- *   c12_drv frames <module> <rate> <format> <n>   : per frame "loop_count hex"; "END" when xmp_play_frame < 0
- *   c12_drv buffer <module> <rate> <format>       : stdin ops "P size loop" | "R" | "S" -> "ret hex restlen"
+ *   c12_drv frames <module> <rate> <format> <n> [<k> <factor>]  : per frame "loop_count hex"; "END" when xmp_play_frame < 0;
+ *                                                    with k and factor: xmp_set_tempo_factor(factor) after k frames
+ *   c12_drv buffer <module> <rate> <format>       : stdin ops "P size loop" | "R" | "S" | "E" | "T factor" -> "ret hex restlen"
  */
 #include "vcommon.h"
 #include "rng.h"
@@ -19,9 +20,10 @@ int main(int argc, char **argv)
 {
 	if (argc >= 6 && !strcmp(argv[1], "frames")) {
 		xmp_context c = start(argv[2], atoi(argv[3]), atoi(argv[4]));
-		int n = atoi(argv[5]), i;
+		int n = atoi(argv[5]), i, tfk = argc >= 8 ? atoi(argv[6]) : -1;
 		struct xmp_frame_info fi;
 		for (i = 0; i < n; i++) {
+			if (i == tfk) xmp_set_tempo_factor(c, atof(argv[7]));
 			if (xmp_play_frame(c) < 0) { puts("END"); break; }
 			xmp_get_frame_info(c, &fi);
 			printf("%d ", fi.loop_count);
@@ -44,6 +46,10 @@ int main(int argc, char **argv)
 				libxmp_set_random(&ctx->rng, 777);
 				if (xmp_start_player(c, atoi(argv[3]), atoi(argv[4])) < 0) { puts("RESTART-FAILED"); return 0; }
 				printf("0 - %d\n", ctx->p.buffer_data.in_size - ctx->p.buffer_data.consumed);
+			} else if (line[0] == 'T') {
+				/* a control call between two xmp_play_buffer calls that changes the length of the frames to come */
+				int r = xmp_set_tempo_factor(c, atof(line + 1));
+				printf("%d - %d\n", r, ctx->p.buffer_data.in_size - ctx->p.buffer_data.consumed);
 			} else if (line[0] == 'S') {
 				xmp_stop_module(c);
 				printf("0 - %d\n", ctx->p.buffer_data.in_size - ctx->p.buffer_data.consumed);
